@@ -59,7 +59,8 @@ func TestCheck(t *testing.T) {
 		run.Count("byzantine_messages_injected", int64(st.ByzInjected))
 		run.Count("stale_justifications_presented", int64(c.Adv.Acts["stale-justification"]))
 		run.Count("byzantine_leaderships", int64(c.Adv.Acts["byz-lead-split"]+c.Adv.Acts["byz-lead-stale"]+c.Adv.Acts["byz-lead-forged"]+c.Adv.Acts["byz-lead-partial"]+
-			c.Adv.Acts["byz-lead-withhold"]+c.Adv.Acts["byz-lead-fakeqc"]+c.Adv.Acts["byz-lead-wrongphase"]+c.Adv.Acts["byz-lead-replayqc"]+c.Adv.Acts["byz-lead-honest"]))
+			c.Adv.Acts["byz-lead-withhold"]+c.Adv.Acts["byz-lead-fakeqc"]+c.Adv.Acts["byz-lead-wrongphase"]+c.Adv.Acts["byz-lead-replayqc"]+c.Adv.Acts["byz-lead-honest"]+c.Adv.Acts["byz-lead-mismatch"]))
+		run.Count("mismatched_justifications_presented", int64(c.Adv.Acts["mismatched-justification-0"]+c.Adv.Acts["mismatched-justification-1"]+c.Adv.Acts["mismatched-justification-2"]))
 		run.Count("aux_alarms_one_vote_per_view", int64(len(s.AuxAlarms)))
 		run.Count("fabricated_certificates_presented", int64(c.Adv.Acts["byz-fake-certificate"]))
 		run.Count("forged_highqc_presented", int64(c.Adv.Acts["byz-lead-forged"]))
